@@ -22,8 +22,16 @@ package main
 //	iu,a,n,T        inbox.unpublish<&T>(n)?.id           ic,a,n,pv,T  inbox.claim<&T>(n, provider: account pv)?.id
 //	sv,a,p,V        storage.save(V) (V = s<int> C.S | t<int> C.S2)      ld,a,p  storage.load<AnyStruct> != nil
 //	pn              panic
+//	cb,a,q,G,W      let c: Capability = capabilities.get<&G>(/public/q) (capability of type G, not the controller's
+//	                type); logs c.id : c.check<&W>() : one read through c.borrow<&W>()
+//	rp,a,q,G,q2     capabilities.publish(capabilities.get<&G>(/public/q), at: /public/q2)
+//	kb,a,id,W       let c: Capability = getController(id)!.capability; logs id : check<&W>() : borrow<&W>() read
+//	im,a,p,T,n      n times issue<&T>(/storage/p) in a loop (one log line per issue)
+//	hr,a,id,s.s...  ONE controller reference (getController(id), loaded once) used for a sequence of calls:
+//	                r<p> retarget, t<tag> setTag, g read id:target:type:tag, d delete (last), and q<p> =
+//	                getControllers(forPath: p) in between (one log line per sub-operation)
 //
-// Every operation logs exactly one line; observation of a transaction = `ok[log;...]` or
+// Every operation logs exactly one line (im, hr: one per repetition / sub-operation); observation of a transaction = `ok[log;...]` or
 // `err:<kind>[logs before the abort]`.
 
 import (
@@ -66,28 +74,100 @@ func capsRead(t string) string {
 	return "r.getType().identifier"
 }
 
-func capsTxSource(tx string) string {
+// capsReadStr is a String expression reading through the reference `r` of type &T
+func capsReadStr(t string) string {
+	if t == "Any" {
+		return "r.getType().identifier"
+	}
+	return capsRead(t) + ".toString()"
+}
+
+const capsCtrlLog = "log(c.capabilityID.toString().concat(\":\").concat(c.target().toString()).concat(\":\").concat(c.borrowType.identifier).concat(\":\").concat(c.tag))"
+
+// capsTxSource returns the transaction and the kind of operation behind every expected log line.
+func capsTxSource(tx string) (string, []string) {
 	var b strings.Builder
+	var kinds []string
 	b.WriteString("import C from 0x4\ntransaction {\n prepare(a0: auth(Storage, Capabilities, Inbox) &Account, a1: auth(Storage, Capabilities, Inbox) &Account, a2: auth(Storage, Capabilities, Inbox) &Account) {\n")
 	for k, op := range strings.Split(tx, ";") {
 		f := strings.Split(op, ",")
+		need := map[string]int{"is": 4, "im": 5, "rt": 4, "hr": 4, "dl": 3, "tg": 4, "gc": 3, "gs": 3, "fe": 3, "pb": 4, "ub": 3,
+			"ex": 3, "gp": 4, "bp": 4, "cb": 5, "rp": 5, "kb": 4, "ip": 5, "iu": 4, "ic": 5, "sv": 4, "ld": 3, "pn": 1}
+		if n, ok := need[f[0]]; !ok || len(f) != n {
+			b.WriteString("  BAD OP\n")
+			continue
+		}
 		acc := func() string { return "a" + f[1] }
 		ctrl := func(body string) {
 			fmt.Fprintf(&b, "  if let c = %s.capabilities.storage.getController(byCapabilityID: %s) { %s } else { log(\"nil\") }\n", acc(), f[2], body)
 		}
+		getControllers := func(name, path string) string {
+			return fmt.Sprintf("let %s: [UInt64] = []\n  for x in %s.capabilities.storage.getControllers(forPath: /storage/p%s) { %s.append(x.capabilityID) }\n  log(%s)\n",
+				name, acc(), path, name, name)
+		}
+		// check / borrow at &W through the untyped capability variable `v`, logged after `prefix`
+		capUse := func(v, w string) string {
+			return fmt.Sprintf("let s%d = %s.id.toString().concat(%s.check<&%s>() ? \":+:\" : \":-:\")\n  if let r = %s.borrow<&%s>() { log(s%d.concat(%s)) } else { log(s%d.concat(\"none\")) }\n",
+				k, v, v, capsTypeSyntax[w], v, capsTypeSyntax[w], k, capsReadStr(w), k)
+		}
+		kind := f[0]
+		reps := 1
 		switch f[0] {
 		case "is":
 			fmt.Fprintf(&b, "  log(%s.capabilities.storage.issue<&%s>(/storage/p%s).id)\n", acc(), capsTypeSyntax[f[3]], f[2])
+		case "im":
+			fmt.Sscanf(f[4], "%d", &reps)
+			if reps < 1 || reps > 200 {
+				b.WriteString("  BAD OP\n")
+				continue
+			}
+			kind = "is"
+			fmt.Fprintf(&b, "  var i%d = 0\n  while i%d < %d { log(%s.capabilities.storage.issue<&%s>(/storage/p%s).id); i%d = i%d + 1 }\n",
+				k, k, reps, acc(), capsTypeSyntax[f[3]], f[2], k, k)
 		case "rt":
 			ctrl(fmt.Sprintf("c.retarget(/storage/p%s); log(\"rt\")", f[3]))
+		case "hr":
+			var then, els strings.Builder
+			for j, sub := range strings.Split(f[3], ".") {
+				if sub == "" {
+					then.WriteString("  BAD OP\n")
+					continue
+				}
+				arg := sub[1:]
+				sk := "hr"
+				switch sub[0] {
+				case 'r':
+					fmt.Fprintf(&then, "  c.retarget(/storage/p%s); log(\"rt\")\n", arg)
+					els.WriteString("  log(\"nil\")\n")
+				case 't':
+					fmt.Fprintf(&then, "  c.setTag(\"%s\"); log(\"tg\")\n", arg)
+					els.WriteString("  log(\"nil\")\n")
+				case 'g':
+					then.WriteString("  " + capsCtrlLog + "\n")
+					els.WriteString("  log(\"nil\")\n")
+				case 'd':
+					then.WriteString("  c.delete(); log(\"dl\")\n")
+					els.WriteString("  log(\"nil\")\n")
+				case 'q':
+					sk = "gs"
+					q := getControllers(fmt.Sprintf("ids%d_%d", len(kinds), j), arg)
+					then.WriteString("  " + q)
+					els.WriteString("  " + q)
+				default:
+					then.WriteString("  BAD OP\n")
+				}
+				kinds = append(kinds, sk)
+			}
+			fmt.Fprintf(&b, "  if let c = %s.capabilities.storage.getController(byCapabilityID: %s) {\n%s  } else {\n%s  }\n", acc(), f[2], then.String(), els.String())
+			reps = 0
 		case "dl":
 			ctrl("c.delete(); log(\"dl\")")
 		case "tg":
 			ctrl(fmt.Sprintf("c.setTag(\"%s\"); log(\"tg\")", f[3]))
 		case "gc":
-			ctrl("log(c.capabilityID.toString().concat(\":\").concat(c.target().toString()).concat(\":\").concat(c.borrowType.identifier).concat(\":\").concat(c.tag))")
+			ctrl(capsCtrlLog)
 		case "gs":
-			fmt.Fprintf(&b, "  let ids%d: [UInt64] = []\n  for c in %s.capabilities.storage.getControllers(forPath: /storage/p%s) { ids%d.append(c.capabilityID) }\n  log(ids%d)\n", k, acc(), f[2], k, k)
+			b.WriteString("  " + getControllers(fmt.Sprintf("ids%d", k), f[2]))
 		case "fe":
 			fmt.Fprintf(&b, "  let ids%d: [UInt64] = []\n  %s.capabilities.storage.forEachController(forPath: /storage/p%s, fun (c: &StorageCapabilityController): Bool { ids%d.append(c.capabilityID); return true })\n  log(ids%d)\n", k, acc(), f[2], k, k)
 		case "pb":
@@ -100,6 +180,12 @@ func capsTxSource(tx string) string {
 			fmt.Fprintf(&b, "  let cap%d = %s.capabilities.get<&%s>(/public/q%s)\n  log(cap%d.id.toString().concat(cap%d.check() ? \"+\" : \"-\"))\n", k, acc(), capsTypeSyntax[f[3]], f[2], k, k)
 		case "bp":
 			fmt.Fprintf(&b, "  if let r = %s.capabilities.borrow<&%s>(/public/q%s) { log(%s) } else { log(\"none\") }\n", acc(), capsTypeSyntax[f[3]], f[2], capsRead(f[3]))
+		case "cb":
+			fmt.Fprintf(&b, "  let cap%d: Capability = %s.capabilities.get<&%s>(/public/q%s)\n  %s", k, acc(), capsTypeSyntax[f[3]], f[2], capUse(fmt.Sprintf("cap%d", k), f[4]))
+		case "rp":
+			fmt.Fprintf(&b, "  %s.capabilities.publish(%s.capabilities.get<&%s>(/public/q%s), at: /public/q%s)\n  log(\"rp\")\n", acc(), acc(), capsTypeSyntax[f[3]], f[2], f[4])
+		case "kb":
+			fmt.Fprintf(&b, "  if let c = %s.capabilities.storage.getController(byCapabilityID: %s) {\n  let cap%d: Capability = c.capability\n  %s  } else { log(\"nil\") }\n", acc(), f[2], k, capUse(fmt.Sprintf("cap%d", k), f[3]))
 		case "ip":
 			ctrl(fmt.Sprintf("%s.inbox.publish(c.capability, name: \"%s\", recipient: a%s.address); log(\"ip\")", acc(), f[3], f[4]))
 		case "iu":
@@ -116,12 +202,13 @@ func capsTxSource(tx string) string {
 			fmt.Fprintf(&b, "  log(%s.storage.load<AnyStruct>(from: /storage/p%s) != nil)\n", acc(), f[2])
 		case "pn":
 			b.WriteString("  if a0.address == 0x1 { panic(\"abort\") }\n")
-		default:
-			b.WriteString("  BAD OP\n")
+		}
+		for i := 0; i < reps; i++ {
+			kinds = append(kinds, kind)
 		}
 	}
 	b.WriteString(" }\n}\n")
-	return b.String()
+	return b.String(), kinds
 }
 
 func capsCanonLog(kind, s string) string {
@@ -171,13 +258,13 @@ func execCaps(op []string) string {
 	env.Signers = []common.Address{common.MustBytesToAddress([]byte{1}), common.MustBytesToAddress([]byte{2}), common.MustBytesToAddress([]byte{3})}
 	var obs []string
 	for _, tx := range strings.Split(op[2], "|") {
-		out := env.Tx(capsTxSource(tx), useVM)
-		ops := strings.Split(tx, ";")
+		src, kinds := capsTxSource(tx)
+		out := env.Tx(src, useVM)
 		logs := make([]string, len(out.Logs))
 		for i, l := range out.Logs {
 			kind := "?"
-			if i < len(ops) {
-				kind = strings.SplitN(ops[i], ",", 2)[0]
+			if i < len(kinds) {
+				kind = kinds[i]
 			}
 			logs[i] = capsCanonLog(kind, l)
 		}
@@ -185,7 +272,7 @@ func execCaps(op []string) string {
 		if out.Class != "none" {
 			head = "err:" + capsErrKind(out)
 			if os.Getenv("VERIF_DEBUG") != "" {
-				fmt.Fprintln(os.Stderr, "TX ERROR:", out.Kind, cdc.ErrString(out.Err), "\n", capsTxSource(tx))
+				fmt.Fprintln(os.Stderr, "TX ERROR:", out.Kind, cdc.ErrString(out.Err), "\n", src)
 			}
 		}
 		obs = append(obs, head+"["+strings.Join(logs, ";")+"]")
@@ -209,6 +296,46 @@ func (g *capsGen) id(a int) int {
 	return 1 + r.Intn(g.nextID[a]+2)
 }
 
+func (g *capsGen) unlive(a, id int) {
+	for i, v := range g.live[a] {
+		if v == id {
+			g.live[a] = append(g.live[a][:i:i], g.live[a][i+1:]...)
+			break
+		}
+	}
+}
+
+// held: several calls through one loaded controller reference (retargets away and back, tags, reads, listings
+// in between, optionally delete at the end)
+func (g *capsGen) held(a int) string {
+	r := g.r
+	id := g.id(a)
+	n := 2 + r.Intn(4)
+	subs := make([]string, 0, n+1)
+	first := r.Intn(4)
+	for i := 0; i < n; i++ {
+		switch x := r.Intn(10); {
+		case x < 6:
+			p := r.Intn(4)
+			if r.Chance(40) {
+				p = first // back to an earlier target
+			}
+			subs = append(subs, fmt.Sprintf("r%d", p))
+		case x < 7:
+			subs = append(subs, "t"+r.Pick([]string{"t1", "t2"}))
+		case x < 8:
+			subs = append(subs, "g")
+		default:
+			subs = append(subs, fmt.Sprintf("q%d", r.Intn(4)))
+		}
+	}
+	if r.Chance(15) {
+		subs = append(subs, "d")
+		g.unlive(a, id)
+	}
+	return fmt.Sprintf("hr,%d,%d,%s", a, id, strings.Join(subs, "."))
+}
+
 func (g *capsGen) op() string {
 	r := g.r
 	a := r.Intn(3)
@@ -217,7 +344,27 @@ func (g *capsGen) op() string {
 	}
 	ty := func() string { return r.Pick(capsTypes) }
 	names := []string{"x", "y"}
-	switch x := r.Intn(100); {
+	switch x := r.Intn(124); {
+	case x >= 100 && x < 108:
+		// a capability of another type than its controller's (get<&G>), used untyped at a third type
+		return fmt.Sprintf("cb,%d,%d,%s,%s", a, r.Intn(2), ty(), ty())
+	case x >= 108 && x < 111:
+		return fmt.Sprintf("rp,%d,%d,%s,%d", a, r.Intn(2), ty(), r.Intn(2))
+	case x >= 111 && x < 114:
+		return fmt.Sprintf("kb,%d,%d,%s", a, g.id(a), ty())
+	case x >= 114 && x < 122:
+		return g.held(a)
+	case x >= 122:
+		n := 2 + r.Intn(6)
+		if r.Chance(30) {
+			n = 10 + r.Intn(30)
+		}
+		p := r.Intn(4)
+		for i := 0; i < n; i++ {
+			g.nextID[a]++
+			g.live[a] = append(g.live[a], g.nextID[a])
+		}
+		return fmt.Sprintf("im,%d,%d,%s,%d", a, p, ty(), n)
 	case x < 18:
 		g.nextID[a]++
 		g.live[a] = append(g.live[a], g.nextID[a])
@@ -226,12 +373,7 @@ func (g *capsGen) op() string {
 		return fmt.Sprintf("rt,%d,%d,%d", a, g.id(a), r.Intn(4))
 	case x < 33:
 		id := g.id(a)
-		for i, v := range g.live[a] {
-			if v == id {
-				g.live[a] = append(g.live[a][:i:i], g.live[a][i+1:]...)
-				break
-			}
-		}
+		g.unlive(a, id)
 		return fmt.Sprintf("dl,%d,%d", a, id)
 	case x < 37:
 		return fmt.Sprintf("tg,%d,%d,%s", a, g.id(a), r.Pick([]string{"t1", "t2"}))
@@ -291,6 +433,107 @@ func genCaps(c *hx.Ctx) {
 			emit("is,0,0," + ct + ";ip,0,1,x,1|ic,2,x,0," + wt + "|ic,1,x,0," + wt + "|ic,1,x,0," + wt + ";iu,0,x," + wt)
 			emit("is,0,0," + ct + ";ip,0,1,x,1|iu,0,x," + wt + "|ic,1,x,0,Any")
 		}
+	}
+	// a capability whose type differs from its controller's: obtained with get<&G> (up- or downcast of the
+	// published one), held untyped and checked / borrowed at &W; also re-published and borrowed at the new path.
+	// Exhaustive over the first stored value x the value that replaces it x controller type x G x W
+	// (CanBorrow must compare W with the capability's type AND with the controller's type; the replaced value
+	// makes the dynamic check pass for a W unrelated to the controller's type).
+	vals := []string{"s7", "t8"}
+	for _, v1 := range append([]string{""}, vals...) {
+		for _, v2 := range append([]string{""}, vals...) {
+			for _, ct := range capsTypes {
+				h := "is,0,1," + ct + ";pb,0,1,0"
+				if v1 != "" {
+					h = "sv,0,1," + v1 + ";" + h
+				}
+				h += "|ld,0,1"
+				if v2 != "" {
+					h += ";sv,0,1," + v2
+				}
+				for _, gt := range capsTypes {
+					var ops []string
+					for _, wt := range capsTypes {
+						ops = append(ops, "cb,0,0,"+gt+","+wt)
+					}
+					// re-published under the type G, then capabilities.borrow / get at every W
+					ops = append(ops, "rp,0,0,"+gt+",1")
+					for _, wt := range capsTypes {
+						ops = append(ops, "bp,0,1,"+wt, "gp,0,1,"+wt, "cb,0,1,"+wt+","+r.Pick(capsTypes))
+					}
+					ops = append(ops, "ub,0,1")
+					h += "|" + strings.Join(ops, ";")
+				}
+				var ops []string
+				for _, wt := range capsTypes {
+					ops = append(ops, "kb,0,1,"+wt)
+				}
+				emit(h + "|" + strings.Join(ops, ";"))
+			}
+		}
+	}
+	// several retargets through ONE loaded controller reference (away and back, chains), then the listings of
+	// every path in this and in the next transaction, then delete
+	allPaths := func(a string) string {
+		var ops []string
+		for p := 0; p < 4; p++ {
+			ops = append(ops, fmt.Sprintf("gs,%s,%d", a, p), fmt.Sprintf("fe,%s,%d", a, p))
+		}
+		return strings.Join(ops, ";")
+	}
+	for _, seq := range []string{"r1.r0", "r1.r1.r0", "r1.r2", "r1.r2.r0", "r0.r0", "r1.r0.r1", "r1.q0.q1.r0", "r1.g.r0.g", "r2.tt1.r0.g",
+		"r1.r2.r3.r0.r1.r2.r3.r0", "r1.r0.d", "r1.d"} {
+		last := seq[strings.LastIndex(seq, ".")+1:]
+		h := "sv,0,0,s1;sv,0,1,s2;is,0,0,S;is,0,0,S;pb,0,1,0|hr,0,1," + seq + ";" + allPaths("0") + ";gc,0,1;bp,0,0,S|" +
+			allPaths("0") + ";gc,0,1;bp,0,0,S;kb,0,1,S|"
+		if last != "d" {
+			h += "rt,0,1,3;" + allPaths("0") + "|dl,0,1;"
+		}
+		emit(h + allPaths("0") + ";gc,0,1;bp,0,0,S|dl,0,2;" + allPaths("0"))
+	}
+	for i := 0; i < 6+c.N/40; i++ {
+		// random: k retargets on one reference in account a, other controllers on the same paths
+		a := r.Intn(3)
+		g := &capsGen{r: r}
+		g.nextID[a], g.live[a] = 3, []int{1, 2, 3}
+		h := fmt.Sprintf("is,%d,%d,S;is,%d,%d,S2;is,%d,%d,Any|%s;%s;%s|%s;gc,%d,1;gc,%d,2;gc,%d,3|%s;%s|%s", a, r.Intn(4), a, r.Intn(4), a, r.Intn(4),
+			g.held(a), g.held(a), allPaths(fmt.Sprint(a)), allPaths(fmt.Sprint(a)), a, a, a, g.held(a), g.held(a), allPaths(fmt.Sprint(a)))
+		emit(h)
+	}
+	// many controllers in one account (the controller map and the id sets span several slabs): a change made
+	// in one transaction (retarget, setTag, delete; also through one held reference) must be there in the next
+	for _, n := range []int{8, 20, 45, 120} {
+		for _, ty := range []string{"S", "Any"} {
+			mid, lastID := n/2, n
+			h := fmt.Sprintf("im,0,0,%s,%d;pb,0,1,0|rt,0,1,1;rt,0,%d,2;hr,0,%d,r1.r3;tg,0,2,t1;gc,0,1;gc,0,%d;gc,0,%d|", ty, n, mid, lastID, mid, lastID)
+			h += fmt.Sprintf("gc,0,1;gc,0,2;gc,0,%d;gc,0,%d;%s|", mid, lastID, allPaths("0"))
+			h += fmt.Sprintf("hr,0,1,r2.r0.r1|gc,0,1;dl,0,%d;rt,0,%d,0|gc,0,1;gc,0,%d;gc,0,%d;%s;sv,0,1,s5;bp,0,0,%s|", mid, lastID, mid, lastID, allPaths("0"), ty)
+			h += fmt.Sprintf("dl,0,1;im,0,3,I,3|%s;bp,0,0,%s;gc,0,%d", allPaths("0"), ty, n+3)
+			emit(h)
+		}
+	}
+	for i := 0; i < 2+c.N/100; i++ {
+		// random retargets among many controllers, each checked in the following transaction
+		n := 12 + r.Intn(50)
+		a := r.Intn(3)
+		h := fmt.Sprintf("im,%d,%d,%s,%d", a, r.Intn(4), r.Pick(capsTypes), n)
+		for j := 0; j < 3; j++ {
+			var ops, chk []string
+			for k := 0; k < 3; k++ {
+				id := 1 + r.Intn(n)
+				switch r.Intn(4) {
+				case 0:
+					ops = append(ops, fmt.Sprintf("hr,%d,%d,r%d.r%d", a, id, r.Intn(4), r.Intn(4)))
+				case 1:
+					ops = append(ops, fmt.Sprintf("tg,%d,%d,t%d", a, id, r.Intn(3)))
+				default:
+					ops = append(ops, fmt.Sprintf("rt,%d,%d,%d", a, id, r.Intn(4)))
+				}
+				chk = append(chk, fmt.Sprintf("gc,%d,%d", a, id))
+			}
+			h += "|" + strings.Join(ops, ";") + "|" + strings.Join(chk, ";") + ";" + allPaths(fmt.Sprint(a))
+		}
+		emit(h)
 	}
 	for i := 0; i < c.N; i++ {
 		g := &capsGen{r: r}
